@@ -134,13 +134,13 @@ func genMode(mode string, minH, maxH int) func(t *rapid.T) Case {
 
 func batchSize() int { return core.EnvInt("C26_BATCH", 24) }
 
-func genSeq(t *rapid.T) Case  { return genMode("seq", batchSize()/2, batchSize())(t) }
+func genSeq(t *rapid.T) Case { return genMode("seq", batchSize()/2, batchSize())(t) }
 func genConc(t *rapid.T) Case {
 	c := genMode("conc", 2, 4)(t)
 	c.Reps = rapid.SampledFrom([]int{1, 1, 50, 2000}).Draw(t, "reps")
 	return c
 }
-func genE2E(t *rapid.T) Case  { return genMode("e2e", batchSize()/3, batchSize()/2)(t) }
+func genE2E(t *rapid.T) Case { return genMode("e2e", batchSize()/3, batchSize()/2)(t) }
 
 // ---------------------------------------------------------------------------
 // the registry under test, behind one interface for the Go API and murex code
@@ -653,8 +653,11 @@ func checkSeq(c Case) *core.Violation {
 		if h.viol != nil {
 			return h.viol
 		}
-		if f := shapeOf(h.ops); f.nontrivial() {
+		if f := shapeOfMode(h.ops, c.Mode); f.nontrivial() {
 			nontrivial++
+		}
+		if os.Getenv("C26_TRACE") != "" {
+			fmt.Printf("TRACE history %d: %s\n", h.id, strings.Join(h.trace, " "))
 		}
 	}
 	core.Count("histories", len(hs))
@@ -825,7 +828,10 @@ func (s shape) nontrivial() bool { return s.repeatedClose || s.deleteAfterClose 
 
 // shapeOf looks at one history: a name counts as "closing" from an accepted
 // close (the pipe existed) to the next advance.
-func shapeOf(ops []Op) (s shape) {
+func shapeOf(ops []Op) (s shape) { return shapeOfMode(ops, "seq") }
+
+// shapeOfMode: murex code has no delete operation, so e2e histories ignore it.
+func shapeOfMode(ops []Op, mode string) (s shape) {
 	var exists, closing [3]bool
 	for _, op := range ops {
 		if op.Kind == "advance" {
@@ -855,6 +861,9 @@ func shapeOf(ops []Op) (s shape) {
 				closing[i] = true
 			}
 		case "delete":
+			if mode == "e2e" {
+				continue
+			}
 			if closing[i] {
 				s.deleteAfterClose = true
 			}
@@ -867,7 +876,7 @@ func shapeOf(ops []Op) (s shape) {
 func classify(c Case) core.Class {
 	var u shape
 	for _, h := range c.Histories {
-		s := shapeOf(h)
+		s := shapeOfMode(h, c.Mode)
 		u.repeatedClose = u.repeatedClose || s.repeatedClose
 		u.deleteAfterClose = u.deleteAfterClose || s.deleteAfterClose
 		u.recreateInGrace = u.recreateInGrace || s.recreateInGrace
